@@ -105,6 +105,13 @@ def tables(ctx: Ctx) -> None:
                 tok = d.type == FD.TYPE_MESSAGE and d.message_type.name == f.type
             ob("field-descriptor", f"{m.name}.{f.name}", d.number == f.number and tok and bool(d.is_repeated) == f.repeated,
                f"{m.name}.{f.name}: compiled (number {d.number}, type {d.type}, repeated {d.is_repeated}) vs text ({f.number}, {f.type}, {f.repeated})")
+            if f.repeated:
+                # wire layout of a repeated field: proto3 packs scalar numeric / enum fields unless the text says [packed=false]
+                packable = (f.type in TYPE_MAP and f.type not in ("string", "bytes")) or f.type in pr.enums
+                want_packed = packable and f.options.get("packed", "true").strip().lower() != "false"
+                got_packed = bool(getattr(d, "is_packed", None)) if hasattr(d, "is_packed") else bool(d.GetOptions().packed)
+                ob("field-packed", f"{m.name}.{f.name}", got_packed == want_packed,
+                   f"{m.name}.{f.name}: compiled descriptor says packed={got_packed}, the .proto text says packed={want_packed} (option {f.options.get('packed')!r})")
     for mname in [n for n in dir(pb) if hasattr(getattr(pb, n), "DESCRIPTOR") and hasattr(getattr(pb, n).DESCRIPTOR, "fields")]:
         if getattr(pb, mname).DESCRIPTOR.file.name.endswith("api.proto"):
             ob("compiled-message-in-text", mname, mname in pr.messages, f"api_pb2.{mname} is not declared in api.proto")
